@@ -117,10 +117,19 @@ def forbidden_tokens(files):
     return hits
 
 
-def run_model(driver: str, lines, timeout=3000):
-    """pipe request lines through the Lean model driver (interpreted: `lake env lean --run Drv/X.lean`)"""
+def run_model(driver: str, lines, timeout=3000, native=False):
+    """pipe request lines through the Lean model driver.  Interpreted: `lake env lean --run Drv/X.lean`;
+    native=True: the compiled `lean_exe` target drv_<x> of the lakefile (same definitions, 10-100x faster)"""
     inp = "\n".join(lines) + "\n"
-    p = subprocess.run(["lake", "env", "lean", "--run", f"Drv/{driver}.lean"], cwd=LEAN, input=inp,
+    if native:
+        exe = f"drv_{driver.lower()}"
+        ok, out = lake_build([exe])
+        if not ok:
+            raise ModelError(f"cannot build {exe}: {out[-2000:]}")
+        cmd = [str(LEAN / ".lake" / "build" / "bin" / exe)]
+    else:
+        cmd = ["lake", "env", "lean", "--run", f"Drv/{driver}.lean"]
+    p = subprocess.run(cmd, cwd=LEAN, input=inp,
                        capture_output=True, text=True, timeout=timeout)
     out = p.stdout.splitlines()
     if p.returncode != 0 or len(out) != len(lines):
